@@ -111,6 +111,28 @@ def scenario_retie(tp):
                           'seed': tp.draw(1000), 'body': root}] + kids}
 
 
+def scenario_periodic(tp):
+    """Directed template: two periodic routines on one TempoClock of a tempo
+    that is not a power of two, one stepping twice as fast as the other.
+    Every second step they are due at the same beat: the one queued first
+    for that beat wakes first.  They share a random generator, so the order
+    shows in what they draw.  One clock: race-free."""
+    n = 6 + tp.draw(5)
+    a = [x for _ in range(n) for x in
+         (['draw', 'rand_i'], ['msg', 400], ['wait', 1])]
+    b = [x for _ in range(2 * n) for x in
+         (['draw', 'rand_i'], ['msg', 500], ['wait', 0.5])]
+    root = [['spawn', 1], ['spawn', 2], ['wait', n + 1.0], ['rec']]
+    return {'t0': rprog.T0,
+            'clocks': [{'tempo': tp.choice([12, 3, 7, 1.5, 6, 24]),
+                        'beats': 0}],
+            'routines': [{'clock': 'sys', 'quant': None,
+                          'seed': tp.draw(1000), 'body': root},
+                         {'clock': 't0', 'quant': 0, 'seed': None, 'body': a},
+                         {'clock': 't0', 'quant': 0, 'seed': None,
+                          'body': b}]}
+
+
 def gen_appsys(tp, tier):
     """NRT only: a program over AppClock as well.  In non-real-time mode
     AppClock keeps logical time like SystemClock (no drift), so the program
@@ -182,6 +204,9 @@ def gen_case(tp, tier):
               'cost': tp.choice([0.0, 5e-6]), 'stall_pm': 0,
               'epoch': tp.choice(['exact', 'real']),
               'time_yield': bool(tp.draw(2)), 'max_steps': 30000}
+        if tp.draw(3) == 0:
+            return {'prog': scenario_periodic(tp), 'knobs': kn, 'perturb': 1,
+                    'family': 0, 'scenario': 'periodic'}
         if tp.draw(2):
             return {'prog': scenario_retie(tp), 'knobs': kn, 'perturb': 1,
                     'family': 0, 'scenario': 'retie'}
@@ -600,7 +625,7 @@ def run_case(case, tape, ctx):
                              f'routine {victim} drew more')
     # 1. RT vs NRT
     ok, why = well_synchronised(prog, nrt['trace'])
-    if case.get('scenario') in ('past', 'retie'):
+    if case.get('scenario') in ('past', 'retie', 'periodic'):
         ok, why = True, None       # race-free by construction
     if ok and not case.get('scenario') and any(
             st[0] == 'resume' and len(st) > 2
@@ -609,13 +634,13 @@ def run_case(case, tape, ctx):
         # the same instant without leaving a trace of the second wake-up:
         # judged only in the directed scenario, which keeps them apart
         ok, why = False, ('moved-routine',)
-    if ok and case.get('scenario') not in ('past', 'retie'):
+    if ok and case.get('scenario') not in ('past', 'retie', 'periodic'):
         # a routine that one world never got to run leaves no event there:
         # the real-time timeline must be free of conflicts as well
         # (physical order: unrelated events of different clocks inside one
         # margin window may appear in either order)
         ok, why = well_synchronised(prog, rt['trace'], slack=MARGIN)
-    if ok and case.get('scenario') not in ('past', 'retie'):
+    if ok and case.get('scenario') not in ('past', 'retie', 'periodic'):
         # ... and so must the union of both (each world may have silenced a
         # different one of two routines that race, e.g. each pausing the
         # other at the same instant)
